@@ -12,6 +12,7 @@ import (
 	"context"
 	"encoding/json"
 	"fmt"
+	"runtime/debug"
 	"sort"
 	"strings"
 	"sync"
@@ -526,6 +527,9 @@ func (e *Env) Close() {
 	}()
 }
 
+// LastCrashStack holds the stack of the latest crash Drive recovered from (for reports).
+var LastCrashStack string
+
 // Drive pushes the transaction with the given index through the real transaction and proposal
 // reconcilers, one Reconcile call at a time, each under recover().  It returns the panic text of
 // the first crashing step ("" if none).
@@ -534,6 +538,7 @@ func (e *Env) Drive(index configapi.Index, rounds int) (crash string) {
 		defer func() {
 			if r := recover(); r != nil && crash == "" {
 				crash = fmt.Sprintf("%s: %v", what, r)
+				LastCrashStack = string(debug.Stack())
 			}
 		}()
 		_, _ = f()
